@@ -175,7 +175,9 @@ def _check_labels(result_terms, allowed, what, detail):
 
 def _build_source(qv, src, rec, classes):
     kind = src["kind"]
-    terms = [(tuple(k), v) for k, v in src["terms"]]
+    terms = [(tuple(k), gen.wrap_number(v, src.get("ctype"))) for k, v in src["terms"]]
+    if src.get("ctype") not in (None, "plain"):
+        classes.add("ctype=" + src["ctype"])
     if kind.startswith("dict"):
         S = gen.terms_dict(terms)
         if any(len(set(k)) != len(k) for k in S):
